@@ -23,7 +23,7 @@ META = {
         "present for requests and responses, absent for notifications); every base type of the schema has at "
         "least one True vector. (c) file names: each of the three `name = f\"<Class>-{valid}-{hash}.json\"` sites "
         "interpolates the class name derived from the message being iterated, the validity component of the pair "
-        "whose value component is dumped into `content`, and the hash of that same content."),
+        "whose value component is dumped into `content`, and the hash of that same content (syntactic form; kept while the code has that shape). (d) generate() is folded (E5) on a synthetic model with the vector generators stubbed: every (class, label, content) triple gets its own file, named <Class>-<label>-<hash of that content>.json, so vectors of different classes or labels never share or overwrite a file. (e) the plugin's flattening of structure properties is folded on the inheritance lattice of C06: vectors are generated against the nearest declaration."),
     "trusted_base": ["Python generator / zip / itertools.product semantics"],
     "assumptions": [],
     "not_decided": ["at least one True vector per message class; acceptance of True vectors by the Python converter "
